@@ -606,6 +606,15 @@ func (e *CEnv) trBin(x *CExpr) CVal {
 	case "-":
 		return CVal{Sub(a.T, b.T), ty}
 	case "*":
+		if !a.T.isInt() && !b.T.isInt() && e.v.inQuant == 0 {
+			// operands fixed on this path (case splits) become literals
+			if na := e.st.normInt(a.T); na.isInt() {
+				a.T = na
+			}
+			if nb := e.st.normInt(b.T); nb.isInt() {
+				b.T = nb
+			}
+		}
 		if !a.T.isInt() && !b.T.isInt() {
 			return CVal{e.v.nlMulC(e.st, a.T, b.T), ty}
 		}
